@@ -233,8 +233,9 @@ def run_harnesses(repo, scratch, sets, tier='quick', timeout=900):
                     r2 = subprocess.run(['cargo', 'kani', '-Z', 'concrete-playback', '--concrete-playback=print', '--harness', h['name']],
                                         cwd=scratch, env=env, stdout=subprocess.PIPE, stderr=subprocess.STDOUT, text=True, timeout=timeout)
                     vals = re.findall(r'//\s*(-?\d+|true|false|\'.\')\s*\n\s*vec!\[([^\]]*)\]', r2.stdout)
-                    ent['witness'] = dict(concrete_playback=[v for v, b in vals]) if vals else None
-                    ent['output'] += '\n--- concrete playback ---\n' + '\n'.join(l for l in r2.stdout.split('\n') if 'vec!' in l or l.strip().startswith('//'))[-2500:]
+                    ent['witness'] = None
+                    pb = r2.stdout[r2.stdout.find('Concrete playback unit test'):] if 'Concrete playback unit test' in r2.stdout else ''
+                    ent['output'] = ent['output'][-2500:] + '\n--- concrete playback ---\n' + pb.split('INFO:')[0][-3500:]
                 except subprocess.TimeoutExpired:
                     ent['witness'] = None
         res['harnesses'].append(ent)
